@@ -384,12 +384,36 @@ async fn reader(ctx: Rc<Ctx>, name: &'static str, s: Rc<UdpSocket>, ops: Vec<Op>
                 log.ev(merge(head, json!({"it": want})));
                 let mut taken = 0u64;
                 let mut ended = false;
+                let mut exhausted = false;
                 macro_rules! consume {
                     ($st:expr, $data:expr, $extra:expr) => {{
                         let mut st = std::pin::pin!($st);
                         let mut nobufs = 0u32;
                         while taken < want && !log.over() {
-                            match timeout(STEP_TIMEOUT, st.next()).await {
+                            // after an earlier multishot stream was dropped datagrams may be gone: once every
+                            // writer has finished a quiet stream means there is nothing left to wait for
+                            let next = if careful {
+                                let t0 = std::time::Instant::now();
+                                loop {
+                                    match timeout(Duration::from_millis(250), st.next()).await {
+                                        Ok(x) => break Ok(x),
+                                        Err(_) if wdone.get() == nw => {
+                                            exhausted = true;
+                                            break Err(());
+                                        }
+                                        Err(_) if t0.elapsed() > STEP_TIMEOUT => break Err(()),
+                                        Err(_) => {}
+                                    }
+                                }
+                            } else {
+                                timeout(STEP_TIMEOUT, st.next()).await.map_err(|_| ())
+                            };
+                            if exhausted {
+                                log.ev(json!({"e": "probe", "peer": name, "pending": false, "got": got, "expect": expect, "in": op.k}));
+                                stop = true;
+                                break;
+                            }
+                            match next {
                                 Ok(Some(Ok(item))) => {
                                     let data: &[u8] = $data(&item);
                                     let ex: Value = $extra(&item);
@@ -441,8 +465,8 @@ async fn reader(ctx: Rc<Ctx>, name: &'static str, s: Rc<UdpSocket>, ops: Vec<Op>
                 if !ended {
                     careful = true;
                     log.ev(json!({"e": "drop", "id": id, "op": op.k, "peer": name, "task": "r", "taken": taken}));
-                } else if taken == 0 {
-                    // a multishot stream that ends without an item consumed a (zero length) datagram
+                } else {
+                    // a plain multishot stream ends at (and consumes) a zero length datagram
                     got += 1;
                 }
             }
